@@ -237,6 +237,15 @@ def wInForce (g : Gm) (a : Arg) : List Rat :=
 def optStrs (j : Json) (k : String) : J.R (Option (List String)) := J.fieldOpt j k (J.list J.str)
 def optInts (j : Json) (k : String) : J.R (Option (List Int)) := J.fieldOpt j k (J.list J.int)
 
+/-- group metadata object `{"name": [...], "stix": [...], "spix": [...], "len": [...]}` or null -/
+def metaOf (j : Json) (k : String) : J.R (Option GrpMeta) :=
+  J.fieldOpt j k (fun v => do
+    let name ← J.field v "name" (J.list J.int)
+    let stix ← J.field v "stix" (J.list J.nat)
+    let spix ← J.field v "spix" (J.list J.nat)
+    let len ← J.field v "len" (J.list J.nat)
+    pure (⟨name, stix, spix, len⟩ : GrpMeta))
+
 def opSpecCmat : J.Op := fun j => do
   let method ← J.field j "method" J.str
   let g ← gmOf j
@@ -250,6 +259,11 @@ def opSpecCmat : J.Op := fun j => do
   let kin ← J.field o "kin" (J.mat J.rat)
   let taxaO ← optStrs o "taxa"
   let grpO ← optInts o "taxa_grp"
+  let metaS ← metaOf j "meta"
+  let metaO ← metaOf o "meta"
+  -- the model object built from the source labels: what `fromGmat` hands on
+  let labS : Labels := ⟨taxa, grp, metaS⟩
+  let labO : Labels := ⟨taxaO, grpO, metaO⟩
   let acc ← J.fieldD o "acc" (J.list (J.list J.rat)) []   -- [i, j, coancestry(i,j), kinship(i,j)]
   let p := pInForce g pa
   let w := wInForce g wa
@@ -269,7 +283,8 @@ def opSpecCmat : J.Op := fun j => do
         absR (entry G i k - entry G k i) ≤ scale / 1000000000000))⟩,
     ⟨"psd_up_to_rounding", psdShift (scale / 1000000000) G⟩,
     ⟨"taxa_carried", taxaO == taxa⟩,
-    ⟨"taxa_grp_carried", grpO == grp⟩]
+    ⟨"taxa_grp_carried", grpO == grp⟩,
+    ⟨"group_metadata_carried", decide (labO.grpMeta = labS.grpMeta)⟩]
   -- permutation / sub-selection of taxa (only sent for estimators that do not re-estimate p)
   match ← J.fieldOpt j "sel" (J.list J.nat) with
   | none => pure ()
@@ -355,8 +370,26 @@ def opSpecSumm : J.Op := fun j => do
   let c2 ← specSumm true A kin "kinship" symmetric
   pure (report (c1 ++ c2))
 
+/-! ### apply_jitter with the recorded oracle inputs -/
+
+/-- `draws`: the uniform vectors in call order; `answers`: what `is_positive_semidefinite` returned for the
+    input matrix and then for each candidate, in call order.  The oracle handed to the model is the table
+    candidate ↦ answer (candidates computed by the model itself). -/
+def opJitter : J.Op := fun j => do
+  let G ← J.field j "mat" (J.mat J.rat)
+  let draws ← J.field j "draws" (J.list (J.list J.rat))
+  let answers ← J.field j "answers" (J.list J.bool)
+  let old := diag G
+  let cands := G :: draws.map (fun u => setDiag G (List.zipWith (· + ·) old u))
+  let table := List.zip cands answers
+  let isPsd (M : M) : Bool := match table.find? (fun ca => ca.1 == M) with
+    | some ca => ca.2
+    | none => false
+  let r := applyJitter isPsd draws G
+  pure (J.obj [("mat", J.ofMat J.ofRat r.1), ("ok", J.ofBool r.2)])
+
 def ops : List (String × J.Op) :=
   [("c13.cmat", opCmat), ("c13.summ", opSumm), ("c13.yang_float", opYangFloat),
-   ("c13.spec_cmat", opSpecCmat), ("c13.spec_summ", opSpecSumm)]
+   ("c13.spec_cmat", opSpecCmat), ("c13.spec_summ", opSpecSumm), ("c13.jitter", opJitter)]
 
 end Drv.C13
